@@ -4,11 +4,14 @@
 package mk
 
 import (
+	"bytes"
 	"fmt"
 	"os"
 	"path/filepath"
 	"runtime/debug"
 	"strings"
+	"syscall"
+	"text/tabwriter"
 
 	"github.com/mk6i/mkdb/engine"
 	"github.com/mk6i/mkdb/sql"
@@ -291,4 +294,52 @@ func CopyDataDir(src, dst string) error {
 		}
 		return os.WriteFile(target, b, 0644)
 	})
+}
+
+// ExecCapture runs q through Session.ExecQuery - the console's own route, which
+// only PRINTS the result of a SELECT - and returns what it wrote to standard
+// output (file descriptor 1 is pointed at a scratch file for the duration).
+func (e *Engine) ExecCapture(q string, scratch string) (string, error) {
+	f, err := os.OpenFile(scratch, os.O_CREATE|os.O_RDWR|os.O_TRUNC, 0644)
+	if err != nil {
+		return "", err
+	}
+	defer f.Close()
+	saved, err := syscall.Dup(1)
+	if err != nil {
+		return "", err
+	}
+	syscall.Dup2(int(f.Fd()), 1)
+	execErr := e.Exec(q)
+	syscall.Dup2(saved, 1)
+	syscall.Close(saved)
+	b, rerr := os.ReadFile(scratch)
+	if rerr != nil {
+		return "", rerr
+	}
+	return string(b), execErr
+}
+
+// FormatTable renders a result exactly the way the engine's printTable does.
+func FormatTable(r *Result) string {
+	var out bytes.Buffer
+	w := tabwriter.NewWriter(&out, 0, 0, 1, ' ', 0)
+	out.WriteString("\n\r\n\r")
+	for _, h := range r.Header {
+		fmt.Fprintf(w, "| [%s]\t", h)
+	}
+	fmt.Fprint(w, "|\n\r")
+	for range r.Header {
+		fmt.Fprint(w, "| --------------------\t")
+	}
+	fmt.Fprint(w, "|\n\r")
+	for _, row := range r.Rows {
+		for _, v := range row {
+			fmt.Fprintf(w, "| %v\t", v)
+		}
+		fmt.Fprint(w, "|\n\r")
+	}
+	w.Flush()
+	fmt.Fprintf(&out, "\n\r%d result(s) returned\n\r", len(r.Rows))
+	return out.String()
 }
